@@ -11,7 +11,7 @@ symmetric operation notices.)"""
 from vfacts import strip, walk, method_name, root_path
 
 RULE = 'FORWARD'
-FLOOR = 60
+FLOOR = 45
 PUBLIC = ('ExplicitTreeAut', 'ExplicitFiniteAut', 'BDDBottomUpTreeAut', 'BDDTopDownTreeAut')
 
 
